@@ -375,7 +375,9 @@ class Export(object):
                                            data=ds[feat],
                                            filtarr=filter_arr)
 
-            if basins:
+            if basins and not (filter_arr is not None
+                               and not np.any(filter_arr)):
+                # (If no events are exported, there is nothing to map.)
                 # We have to store basins. There are three options:
                 # - filtering disabled: just copy basins
                 # - filtering enabled
